@@ -8,18 +8,18 @@ pub mod m1_perm1 {
    use crate::common::*;
    ascent! {
       pub struct Prog;
-      relation r0(i64, i64);
-      relation r3(i64, i64, i64);
-      relation r1(i64, i64);
       relation r2(i64);
-      r3(v1, ((*v0) + 1), v1) <-- r2(v0) if ((*v0) < 2), if ((*v0) < 6), r1(v1, v0);
+      relation r0(i64, i64);
+      relation r1(i64, i64);
+      relation r3(i64, i64, i64);
+      r3(v1, ((*v0) + 1), v1) <-- r2(v0) if ((*v0) < 2), r1(v1, v0), if ((*v0) < 6);
       r3(v0, v1, v2) <-- r0(v0, v1) if ((*v0) < 3), r1(v1, v2) if ((*v2) != (*v1));
-      r1(3, 3) <-- r1(1, 1);
-      r2(v0) <-- r0(v0, v1) if ((*v0) < 3), r1(v1, v2) if ((*v2) != (*v1));
       r3(1, 2, 1);
-      r3(v1, v1, v1) <-- r0(3, 2), r1(0, v0), r1(v0, v1);
-      r3(v0, v0, (v0 + 1)) <-- let v0 = 2, r1(v0, v0), r3(v0, (v0 + 1), (v0 + 1)), if (v0 < 6);
+      r3(v1, v1, v1) <-- r1(0, v0), r0(3, 2), r1(v0, v1);
       r3(0, 3, 3) <-- r0(1, 1);
+      r2(v0) <-- r0(v0, v1) if ((*v0) < 3), r1(v1, v2) if ((*v2) != (*v1));
+      r1(3, 3) <-- r1(1, 1);
+      r3(v0, v0, (v0 + 1)) <-- let v0 = 2, r1(v0, v0), r3(v0, (v0 + 1), (v0 + 1)), if (v0 < 6), if (v0 <= 6);
    }
    pub struct Inst { p: Prog, pool: Option<ascent::rayon::ThreadPool> }
    pub fn make(pool: Option<usize>) -> Box<dyn Driver> {
@@ -64,7 +64,7 @@ pub mod m3 {
       r2(v1) <-- if let Some(v0) = Some(4), r1(v1), r0(v0, v2);
       r3(v0, 1) <-- r2(v0) if ((*v0) != 1);
       r4(v0, v0) <-- r3(v0, 3), if ((*v0) <= 1), r2(v0);
-      r5((v2 + 1), v2, 1) <-- r4(v0, v1) if ((*v0) < 1) let v2 = ((*v1) + 0), r3(v2, v0), let v3 = (*v1), if (v2 < 6);
+      r5((v2 + 1), v2, 1) <-- r4(v0, v1) if ((*v0) < 1) let v2 = ((*v1) + 0), r3(v2, v0), let v3 = (*v1), if (v2 < 6), if (v2 <= 6);
       r3(v0, v8) <-- if let Some(v9) = Some(2), r0(v0, v1), r3(v1, v9) let v8 = ((*v0) + 1);
       r4(v0, 1) <-- r0(v0, 3) if ((*v0) != 6), let v1 = (*v0);
       r0(3, 0);
@@ -109,10 +109,10 @@ pub mod m4_ren0 {
       relation rel1_(i64);
       relation rel2_(i64, i64, i64);
       relation rel3_(i64, i64, i64);
-      rel3_(x0_, 0, 0) <-- if let Some(x0_) = Some(3), rel1_(x0_) if (x0_ <= 2);
-      rel3_(x0_, x2_, x2_) <-- if let Some(x0_) = Some(4), rel3_(x1_, x0_, x2_), rel1_(((*x1_) + 1));
+      rel3_(x0_, 0, 0) <-- if let Some(x0_) = Some(3), rel1_(x0_) if (x0_ <= 2), if (x0_ <= 6);
+      rel3_(x0_, x2_, x2_) <-- if let Some(x0_) = Some(4), rel3_(x1_, x0_, x2_), rel1_(((*x1_) + 1)), if (x0_ <= 6);
       rel2_(x0_, x1_, x2_) <-- rel0_(x0_, x1_) if ((*x0_) < 5), rel0_(x1_, x2_) if ((*x2_) != (*x1_));
-      rel2_(x0_, x0_, x0_) <-- rel1_(3), let x0_ = 3;
+      rel2_(x0_, x0_, x0_) <-- rel1_(3), let x0_ = 3, if (x0_ <= 6);
    }
    pub struct Inst { p: Prog, pool: Option<ascent::rayon::ThreadPool> }
    pub fn make(pool: Option<usize>) -> Box<dyn Driver> {
